@@ -28,6 +28,10 @@ pub struct HiddenCase {
     /// the forced draws of the history meet an empty bucket
     #[serde(default)]
     burn: bool,
+    /// finally, calls with arguments from the whole u64 range on both twins:
+    /// 0 inc_length, 1 dec_length, 2 set_length, 3 inc, 4 dec, 5 set_position
+    #[serde(default)]
+    big: Vec<(u8, u64)>,
 }
 
 /// a stream of `n` ready items
@@ -125,7 +129,7 @@ fn run_hidden(c: &HiddenCase) -> CaseResult {
     let file_probe = file.try_clone().map_err(|e| Fail::new("harness", e.to_string()))?;
     let mut keep_mp: Option<MultiProgress> = None;
     let mut keep_old: Option<MultiProgress> = None;
-    let hid = match c.way % 5 {
+    let hid = match c.way % 6 {
         0 => ProgressBar::with_draw_target(c.len, ProgressDrawTarget::hidden()),
         1 => {
             let term = console::Term::read_write_pair(file.try_clone().unwrap(), file);
@@ -134,6 +138,18 @@ fn run_hidden(c: &HiddenCase) -> CaseResult {
         2 => {
             let mp = MultiProgress::with_draw_target(ProgressDrawTarget::hidden());
             let pb = mp.add(ProgressBar::with_draw_target(c.len, ProgressDrawTarget::hidden()));
+            keep_mp = Some(mp);
+            pb
+        }
+        5 => {
+            // a member of a hidden MultiProgress, removed from it; then the MultiProgress gets the terminal
+            let mp = MultiProgress::with_draw_target(ProgressDrawTarget::hidden());
+            let pb = mp.add(ProgressBar::with_draw_target(c.len, ProgressDrawTarget::hidden()));
+            if c.len.map_or(false, |l| l % 3 == 0) {
+                pb.tick();
+            }
+            mp.remove(&pb);
+            mp.set_draw_target(ProgressDrawTarget::term_like(spy.boxed()));
             keep_mp = Some(mp);
             pb
         }
@@ -155,17 +171,17 @@ fn run_hidden(c: &HiddenCase) -> CaseResult {
         }
     };
     hid.set_style(style());
-    ensure!(c.way % 5 == 3 || hid.is_hidden(), "not_hidden", "is_hidden() is false for hidden way {}", c.way % 5);
+    ensure!(c.way % 6 == 3 || hid.is_hidden(), "not_hidden", "is_hidden() is false for hidden way {}", c.way % 6);
     let mut v = Verdict::default();
     let all: Vec<(bool, &BOp)> = c.pre.iter().map(|o| (true, o)).chain(c.ops.iter().map(|o| (false, o))).collect();
-    let mut removed = c.way % 5 != 3;
-    if c.burn && c.way % 5 != 3 {
+    let mut removed = c.way % 6 != 3;
+    if c.burn && c.way % 6 != 3 {
         let calls0 = spy.ncalls();
         for _ in 0..25 {
             vis.tick();
-            catch(|| hid.tick()).map_err(|p| Fail::new("panic", format!("hidden bar (way {}): tick panicked: {p}", c.way % 5)))?;
+            catch(|| hid.tick()).map_err(|p| Fail::new("panic", format!("hidden bar (way {}): tick panicked: {p}", c.way % 6)))?;
         }
-        ensure!(spy.ncalls() == calls0, "not_silent", "hidden way {}: 25 ticks made {} terminal call(s)", c.way % 5, spy.ncalls() - calls0);
+        ensure!(spy.ncalls() == calls0, "not_silent", "hidden way {}: 25 ticks made {} terminal call(s)", c.way % 6, spy.ncalls() - calls0);
         v.label("limiter_burst_used_up_first");
     }
     let mut state_change = false;
@@ -177,19 +193,19 @@ fn run_hidden(c: &HiddenCase) -> CaseResult {
             }
             removed = true;
         }
-        if *is_pre && c.way % 5 != 3 {
+        if *is_pre && c.way % 6 != 3 {
             continue;
         }
         clock::advance(Duration::from_millis(3));
         let calls_before = spy.ncalls();
         catch(|| exec_quiet(&vis, op)).map_err(|p| Fail::new("panic", format!("visible twin: op #{i} {op:?} panicked: {p}")))?;
-        catch(|| exec_quiet(&hid, op)).map_err(|p| Fail::new("panic", format!("hidden bar (way {}): op #{i} {op:?} panicked: {p}", c.way % 5)))?;
+        catch(|| exec_quiet(&hid, op)).map_err(|p| Fail::new("panic", format!("hidden bar (way {}): op #{i} {op:?} panicked: {p}", c.way % 6)))?;
         if removed {
             let n = spy.ncalls() - calls_before;
-            ensure!(n == 0, "not_silent", "hidden way {}: op #{i} {op:?} on the bar made {n} terminal call(s) (ops {:?} after pre {:?})", c.way % 5, &c.ops, &c.pre);
+            ensure!(n == 0, "not_silent", "hidden way {}: op #{i} {op:?} on the bar made {n} terminal call(s) (ops {:?} after pre {:?})", c.way % 6, &c.ops, &c.pre);
         }
         let (a, b) = (snap(&vis), snap(&hid));
-        ensure!(a == b, "state_diverged", "hidden way {}: after op #{i} {op:?}: (position, length, message, prefix, finished, elapsed, eta, per_sec bits) = {b:?}, the visible twin has {a:?}", c.way % 5);
+        ensure!(a == b, "state_diverged", "hidden way {}: after op #{i} {op:?}: (position, length, message, prefix, finished, elapsed, eta, per_sec bits) = {b:?}, the visible twin has {a:?}", c.way % 6);
         state_change |= matches!(op, BOp::Inc(_) | BOp::SetPos(_) | BOp::SetMessage(_) | BOp::SetLength(_) | BOp::Reset);
         forced |= matches!(op, BOp::Println(_) | BOp::Suspend(_) | BOp::SetTabWidth(_) | BOp::Finish | BOp::FinishWithMessage(_) | BOp::FinishAndClear | BOp::Abandon | BOp::AbandonWithMessage(_));
     }
@@ -202,28 +218,53 @@ fn run_hidden(c: &HiddenCase) -> CaseResult {
         clock::advance(Duration::from_millis(3));
         let calls_before = spy.ncalls();
         catch(|| drive_adaptor(&vis, kind, n, k)).map_err(|p| Fail::new("panic", format!("visible twin: adaptor {kind} panicked: {p}")))?;
-        catch(|| drive_adaptor(&hid, kind, n, k)).map_err(|p| Fail::new("panic", format!("hidden bar (way {}): adaptor {kind} panicked: {p}", c.way % 5)))?;
+        catch(|| drive_adaptor(&hid, kind, n, k)).map_err(|p| Fail::new("panic", format!("hidden bar (way {}): adaptor {kind} panicked: {p}", c.way % 6)))?;
         let n_calls = spy.ncalls() - calls_before;
         let what = ["wrap_iter", "wrap_iter(..).rev()", "wrap_stream", "wrap_read", "rayon progress_with(..).map().sum()", "rayon progress_with(..).enumerate().collect()"][(kind % 6) as usize];
-        ensure!(n_calls == 0, "not_silent", "hidden way {}: driving {what} over {n} items made {n_calls} terminal call(s)", c.way % 5);
+        ensure!(n_calls == 0, "not_silent", "hidden way {}: driving {what} over {n} items made {n_calls} terminal call(s)", c.way % 6);
         let (a, b) = (snap(&vis), snap(&hid));
-        ensure!(a == b, "state_diverged", "hidden way {}: after {what} over {n} items with finish behaviour {k} ended (ops {:?}): (position, length, message, prefix, finished, elapsed, eta, per_sec bits) = {b:?}, the visible twin has {a:?}", c.way % 5, c.ops);
+        ensure!(a == b, "state_diverged", "hidden way {}: after {what} over {n} items with finish behaviour {k} ended (ops {:?}): (position, length, message, prefix, finished, elapsed, eta, per_sec bits) = {b:?}, the visible twin has {a:?}", c.way % 6, c.ops);
         v.label("adaptor_driven_to_its_end");
+    }
+    for (j, (kind, x)) in c.big.iter().enumerate() {
+        if !removed {
+            if let Some(mp) = &keep_mp {
+                mp.remove(&hid);
+            }
+            removed = true;
+        }
+        clock::advance(Duration::from_millis(3));
+        let calls_before = spy.ncalls();
+        let call = |pb: &ProgressBar| match kind % 6 {
+            0 => pb.inc_length(*x),
+            1 => pb.dec_length(*x),
+            2 => pb.set_length(*x),
+            3 => pb.inc(*x),
+            4 => pb.dec(*x),
+            _ => pb.set_position(*x),
+        };
+        let what = ["inc_length", "dec_length", "set_length", "inc", "dec", "set_position"][(kind % 6) as usize];
+        catch(|| call(&vis)).map_err(|p| Fail::new("panic", format!("visible twin: {what}({x}) panicked: {p}")))?;
+        catch(|| call(&hid)).map_err(|p| Fail::new("panic", format!("hidden bar (way {}): call #{j} {what}({x}) panicked: {p} (calls {:?})", c.way % 6, c.big)))?;
+        ensure!(spy.ncalls() == calls_before, "not_silent", "hidden way {}: {what}({x}) made {} terminal call(s)", c.way % 6, spy.ncalls() - calls_before);
+        let (a, b) = (snap(&vis), snap(&hid));
+        ensure!(a == b, "state_diverged", "hidden way {}: after call #{j} {what}({x}) of {:?}: (position, length, message, prefix, finished, elapsed, eta, per_sec bits) = {b:?}, the visible twin has {a:?}", c.way % 6, c.big);
+        v.label("arguments_over_the_whole_u64_range");
     }
     drop(hid);
     drop(keep_mp);
     drop(keep_old);
-    if c.way % 5 == 1 {
+    if c.way % 6 == 1 {
         let len = file_probe.metadata().map(|m| m.len()).unwrap_or(0);
         ensure!(len == 0, "not_silent", "Term that is not a tty: {len} bytes were written to it (ops {:?})", c.ops);
     }
-    if c.way % 5 == 3 && removed {
+    if c.way % 6 == 3 && removed {
         // dropping a removed bar is silent too (checked through the spy's counter during ops; the drop itself:)
     }
     v.nontrivial = state_change && forced;
-    v.label(["way_hidden_target", "way_not_a_tty", "way_hidden_multi", "way_removed_from_multi", "way_moved_from_visible_to_hidden_multi"][(c.way % 5) as usize]);
+    v.label(["way_hidden_target", "way_not_a_tty", "way_hidden_multi", "way_removed_from_multi", "way_moved_from_visible_to_hidden_multi", "way_removed_from_hidden_multi_that_becomes_visible"][(c.way % 6) as usize]);
     v.label_if(state_change && forced, "state_change_and_forced_draw");
-    v.label_if(c.way % 5 == 3 && c.pre.iter().any(|o| matches!(o, BOp::Finish | BOp::Abandon | BOp::FinishWithMessage(_))), "finished_before_removal");
+    v.label_if(c.way % 6 == 3 && c.pre.iter().any(|o| matches!(o, BOp::Finish | BOp::Abandon | BOp::FinishWithMessage(_))), "finished_before_removal");
     Ok(v)
 }
 
@@ -231,8 +272,9 @@ fn case_strategy(tier: Tier) -> BoxedStrategy<HiddenCase> {
     let n = tier.pick(20, 40);
     let tab_msg = prop_oneof![Just(BOp::SetMessage("a\tb".into())), Just(BOp::SetPrefix("\tp".into())), (0u8..12).prop_map(BOp::SetTabWidth)];
     let op = prop_oneof![8 => c01::bop_strategy(20), 2 => tab_msg];
-    (0u8..5, proptest::option::weighted(0.8, 0u64..100), proptest::collection::vec(op.clone(), 0..6), proptest::collection::vec(op, 0..n), proptest::option::weighted(0.4, (0u8..6, 0u8..8, 0u8..5)), proptest::bool::weighted(0.3))
-        .prop_map(|(way, len, pre, ops, adaptor, burn)| HiddenCase { way, len, pre, ops, adaptor, burn })
+    let big = prop_oneof![2 => Just(vec![]), 1 => proptest::collection::vec((0u8..6, super::c07::special_u64()), 1..5)];
+    (0u8..6, proptest::option::weighted(0.8, 0u64..100), proptest::collection::vec(op.clone(), 0..6), proptest::collection::vec(op, 0..n), proptest::option::weighted(0.4, (0u8..6, 0u8..8, 0u8..5)), proptest::bool::weighted(0.3), big)
+        .prop_map(|(way, len, pre, ops, adaptor, burn, big)| HiddenCase { way, len, pre, ops, adaptor, burn, big })
         .boxed()
 }
 
@@ -248,12 +290,12 @@ pub fn property() -> Property {
         ],
         parts: vec![Box::new(Gen::<HiddenCase> {
             name: "twins",
-            rule: "the C01 op alphabet (plus texts with tabs and set_tab_width) applied to a visible bar and to a twin hidden in one of four ways (hidden target, Term over a non-tty fd, member of a hidden MultiProgress, member of a visible MultiProgress removed after 0-5 ops incl. finishing); the hidden twin must make no terminal call / write no byte and all getters must agree after every op; non-trivial = a state change and a forced-draw op occurred",
+            rule: "the C01 op alphabet (plus texts with tabs and set_tab_width) applied to a visible bar and to a twin hidden in one of six ways (hidden target, Term over a non-tty fd, member of a hidden MultiProgress, member of a visible MultiProgress removed after 0-5 ops incl. finishing, member of a visible MultiProgress moved into a hidden one, removed from a hidden MultiProgress that then gets the terminal), optionally followed by an adaptor driven to its end and by length/position calls with arguments from the whole u64 range; the hidden twin must make no terminal call / write no byte and all getters must agree after every op; non-trivial = a state change and a forced-draw op occurred",
             strategy: case_strategy,
             cases: |t| t.pick(20_000, 800_000),
             run: run_hidden,
             signature: no_signature,
-            essential: &["way_hidden_target", "way_not_a_tty", "way_hidden_multi", "way_removed_from_multi", "way_moved_from_visible_to_hidden_multi", "state_change_and_forced_draw", "finished_before_removal", "adaptor_driven_to_its_end", "limiter_burst_used_up_first"],
+            essential: &["way_hidden_target", "way_not_a_tty", "way_hidden_multi", "way_removed_from_multi", "way_moved_from_visible_to_hidden_multi", "way_removed_from_hidden_multi_that_becomes_visible", "arguments_over_the_whole_u64_range", "state_change_and_forced_draw", "finished_before_removal", "adaptor_driven_to_its_end", "limiter_burst_used_up_first"],
             workers: w,
             decode: None,
         })],
